@@ -1,6 +1,7 @@
 package main
 
 import (
+	"fmt"
 	"context"
 	"encoding/hex"
 	"errors"
@@ -18,18 +19,24 @@ import (
 // reach the transport, and the call must report the close error.
 
 var errC11 = errors.New("close-error-c11")
+var errNilCause = errors.New("(Close(nil))")
 
 type closingReader struct {
 	chunks  [][]byte
 	k       int
 	closeAt int
 	ch      netty.Channel
+	cause   error
 }
 
 func (r *closingReader) Read(p []byte) (int, error) {
 	r.k++
 	if r.k == r.closeAt {
-		r.ch.Close(errC11)
+		if r.cause == errNilCause {
+			r.ch.Close(nil)
+		} else {
+			r.ch.Close(r.cause)
+		}
 	}
 	if r.k > len(r.chunks) {
 		return 0, io.EOF
@@ -52,6 +59,9 @@ func runC11(seed int64, count int) {
 			hs[i] = hex.EncodeToString(chunks[i])
 		}
 		closeAt := rng.Intn(nch + 3) // 0 = never; nch+1 = at the EOF read; nch+2 = never reached
+		pre := rng.Intn(6) == 0      // the channel is closed before ReadFrom is called
+		// what the channel is closed with: an ordinary error, nil, or what a peer hang-up leaves behind (io.EOF itself)
+		cause := []error{errC11, errC11, errNilCause, io.EOF, io.ErrUnexpectedEOF}[rng.Intn(5)]
 		for _, mode := range []string{"sync", "async"} {
 			pl := netty.NewPipeline()
 			tr := mock.NewTransport()
@@ -62,7 +72,15 @@ func runC11(seed int64, count int) {
 				ch = netty.NewAsyncWriteChannel(8, true)(int64(cs), context.Background(), pl, tr, goExec{})
 			}
 			netty.NvAttach(pl, ch)
-			rd := &closingReader{chunks: chunks, closeAt: closeAt, ch: ch}
+			rd := &closingReader{chunks: chunks, closeAt: closeAt, ch: ch, cause: cause}
+			if pre {
+				rd.closeAt = 0
+				if cause == errNilCause {
+					ch.Close(nil)
+				} else {
+					ch.Close(cause)
+				}
+			}
 			var n int64
 			var err error
 			status := guard(func() { n, err = ch.ReadFrom(rd) })
@@ -76,7 +94,7 @@ func runC11(seed int64, count int) {
 			switch {
 			case status == "panic":
 				cls = "panic"
-			case errors.Is(err, errC11):
+			case cause != errNilCause && err == cause, cause == errNilCause && err != nil && err.Error() == "netty: channel closed":
 				cls = "closeerr"
 			case err != nil:
 				cls = "other"
@@ -97,7 +115,11 @@ func runC11(seed int64, count int) {
 					}
 				}
 			}
-			emit("C11 rf %s %d %s n=%d err=%s wire=%s after=%d", mode, closeAt, strings.Join(hs, ","), n, cls, hexOrDash(wire), after)
+			at := fmt.Sprint(closeAt)
+			if pre {
+				at = "pre"
+			}
+			emit("C11 rf %s %s %s n=%d err=%s wire=%s after=%d", mode, at, strings.Join(hs, ","), n, cls, hexOrDash(wire), after)
 			ch.Close(nil)
 		}
 	}
